@@ -1289,6 +1289,202 @@ def stage_authorized_keys(ctx):
         ctx.broke('vacuity:authorized_keys', f'branches hit too rarely: {low} (need {need})')
 
 
+
+# ================================================================================================
+# stage: every documented way of supplying the data (paths, lists of paths, bytes, str, objects,
+# callables, tuples), files that end with / without a newline, CRLF, empty files, split lines
+
+FILE_ENDINGS = ['\n', '\n', '', '', '\r\n', '\n\n', ' ', '\r', '\n# c']
+
+
+def canon_kh_result(r):
+    return tuple(sorted({key_id(k) for k in cat}) for cat in r[:3])
+
+
+def kh_supply_forms(paths, raw_texts, q):
+    """The same data through every documented interface -> {form: result or ('exc', class)}."""
+    import asyncssh
+    host, addr, port = q
+    out = {}
+
+    def run(name, f):
+        try:
+            out[name] = canon_kh_result(f())
+        except Exception as e:
+            out[name] = ('exc', type(e).__name__)
+    run('list_of_paths', lambda: asyncssh.match_known_hosts(list(paths), host, addr, port))
+    run('read_known_hosts(list)', lambda: asyncssh.match_known_hosts(asyncssh.read_known_hosts(list(paths)), host, addr, port))
+    run('object.match', lambda: asyncssh.read_known_hosts(list(paths)).match(host, addr, port))
+
+    def as_callable():
+        obj = asyncssh.read_known_hosts(list(paths))
+        return asyncssh.match_known_hosts(lambda h, a, p: obj.match(h, a, p), host, addr, port)
+    run('callable', as_callable)
+    run('tuple', lambda: asyncssh.match_known_hosts(asyncssh.match_known_hosts(list(paths), host, addr, port), host, addr, port))
+    joined = '\n'.join(raw_texts)
+    run('bytes(newline-joined)', lambda: asyncssh.match_known_hosts(joined.encode('utf-8'), host, addr, port))
+    run('import_known_hosts(str)', lambda: asyncssh.match_known_hosts(asyncssh.import_known_hosts(joined), host, addr, port))
+    if len(paths) == 1:
+        run('single_path', lambda: asyncssh.match_known_hosts(paths[0], host, addr, port))
+        run('read_known_hosts(path)', lambda: asyncssh.match_known_hosts(asyncssh.read_known_hosts(paths[0]), host, addr, port))
+    return out
+
+
+def write_files(tmp, prefix, texts):
+    paths = []
+    for i, t in enumerate(texts):
+        p = os.path.join(tmp, '%s%d' % (prefix, i))
+        with open(p, 'wb') as f:
+            f.write(t.encode('utf-8'))
+        paths.append(p)
+    return paths
+
+
+def read_text(path):
+    """File contents as asyncssh reads them (text mode, universal newlines); Python standard library only."""
+    with open(path, 'r') as f:
+        return f.read()
+
+
+def gen_file_set(rng, gen_lines):
+    """1-3 files; returns (raw texts, per-file line structs or None when a line was cut in two)."""
+    k = rng.choice([1, 2, 2, 2, 3])
+    texts, structs = [], []
+    for _ in range(k):
+        if rng.random() < 0.12:
+            texts.append(rng.choice(['', '', '\n', '# only a comment', '   \n']))
+            structs.append([])
+            continue
+        lines = gen_lines()
+        sep = rng.choice(['\n', '\n', '\r\n'])
+        texts.append(sep.join(ln['text'] for ln in lines) + rng.choice(FILE_ENDINGS))
+        structs.append(lines)
+    if k >= 2 and rng.random() < 0.25:
+        # move the boundary between the first two files into the middle of a line
+        whole = texts[0] + ('' if texts[0].endswith('\n') else '\n') + texts[1]
+        cut = rng.randrange(1, max(2, len(whole)))
+        texts[0], texts[1] = whole[:cut], whole[cut:]
+        structs = None
+    return texts, structs
+
+
+def stage_supply_forms(ctx):
+    rng = ctx.rng
+    n = 260 if ctx.tier == 'thorough' else 60
+    tmp = tempfile.mkdtemp(prefix='c17f-', dir='/var/tmp')
+    st = {'multi': 0, 'no_final_newline_inside_list': 0, 'crlf': 0, 'empty_file': 0, 'cut_line': 0, 'selected': 0, 'ak_accepted': 0}
+    cases_kh, metas_kh, cases_ak, metas_ak = [], [], [], []
+    try:
+        for i in range(n):
+            # ---- known_hosts ----
+            texts, structs = gen_file_set(rng, lambda: gen_kh_file(rng, True)[:rng.randint(1, 3)])
+            paths = write_files(tmp, 'kh%d_' % i, texts)
+            read = [read_text(p) for p in paths]
+            all_lines = [ln for f in (structs or []) for ln in f]
+            queries = [gen_query(rng, all_lines) for _ in range(2)] if all_lines else [(rng.choice(HOSTS), '', None), (rng.choice(HOSTS), rng.choice(ADDRS4), 2222)]
+            st['multi'] += len(texts) > 1
+            st['no_final_newline_inside_list'] += any(t and not t.endswith(('\n', '\r')) for t in texts[:-1])
+            st['crlf'] += any('\r\n' in t for t in texts)
+            st['empty_file'] += any(not t.strip() for t in texts)
+            st['cut_line'] += structs is None
+            values = {''}
+            for h, a, p in queries:
+                values |= {h, a, with_port(h, p), with_port(a, p)}
+            whole = '\n'.join(read)
+            tb = b64_table(whole)
+            tabs = coq_tables(key_table(whole), tb, hmac_table(tb, values), ip6_table(pattern_cands(whole) | values))
+            qs = []
+            for q in queries:
+                forms = kh_supply_forms(paths, texts, q)
+                got = forms['list_of_paths']
+                ctx.note_case(('kh-files', tuple(texts), q), nontrivial=not isinstance(got, tuple) or got[0] != 'exc' and any(got))
+                ctx.count('supply.known_hosts.%d_files' % len(texts))
+                if got and got[0] != 'exc':
+                    st['selected'] += any(got)
+                qs.append((q[0], q[1], q[2] or 0, None if got[0] == 'exc' else got))
+                bad = sorted(k for k, v in forms.items() if v != got)
+                exp = None
+                if structs is not None and not bad:
+                    (et, ec, er), _fb = ref.kh_lookup(all_lines, *q)
+                    if got[0] == 'exc' or (set(got[0]), set(got[1]), set(got[2])) != (et, ec, er):
+                        exp = (sorted(et), sorted(ec), sorted(er))
+                if bad or exp is not None:
+                    report(ctx, 'kh_supply_forms',
+                           f'known_hosts given as the file list {texts!r}, lookup {q!r}: match_known_hosts(list of paths) gave {got!r}; '
+                           + (f'the same data through {bad} gave {[forms[k] for k in bad]!r}' if bad else f'the file-format rules give {exp!r}')
+                           + ' (a line never spans two files; every way of supplying the data must agree)',
+                           {'kind': 'kh_supply_forms', 'file': 'known_hosts_files', 'files': texts, 'lines_per_file': structs, 'query': list(q)})
+            cases_kh.append('(%s, %s, %s)' % (tabs, clist(read, zs), clist(qs, lambda e: '(%s, %s, %s, %s)' % (
+                zs(e[0]), zs(e[1]), cz(e[2]), copt(e[3], lambda g: '(%s, %s, %s)' % (zl(g[0]), zl(g[1]), zl(g[2])))))))
+            metas_kh.append((texts, queries))
+            # ---- authorized_keys ----
+            texts, structs = gen_file_set(rng, lambda: [gen_ak_line(rng, gen_ossh_options) for _ in range(rng.randint(1, 2))])
+            paths = write_files(tmp, 'ak%d_' % i, texts)
+            read = [read_text(p) for p in paths]
+            all_lines = [ln for f in (structs or []) for ln in f]
+            queries = [gen_ak_query(rng, all_lines or [{'key': 0}]) for _ in range(2)]
+            got, exc = impl_ak_files(paths, queries)
+            joined, _ = impl_ak('\n'.join(texts), queries)
+            each_ok = all(impl_ak(t, [])[1] is None for t in texts)
+            for q, g, j in zip(queries, got, joined):
+                ctx.note_case(('ak-files', tuple(texts), q), nontrivial=g is not None and g[0] == 'opts')
+                ctx.count('supply.authorized_keys.%d_files' % len(texts))
+                st['ak_accepted'] += g is not None and g[0] == 'opts'
+                if each_ok and g != j:
+                    report(ctx, 'ak_supply_forms',
+                           f'authorized_keys given as the file list {texts!r}, validate{q!r}: read_authorized_keys(list) gave {g!r}, '
+                           f'import_authorized_keys of the newline-joined contents gave {j!r} (a line never spans two files)',
+                           {'kind': 'ak_supply_forms', 'file': 'authorized_keys_files', 'files': texts, 'query': list(q)})
+            whole = '\n'.join(read)
+            cands = set()
+            for q in queries:
+                cands |= {q[1], q[2]}
+            for variant in (whole, whole.replace('"', '')):
+                for m in re.finditer(r'[0-9a-fA-F:.]*:[0-9a-fA-F:.]*(/\d+)?', variant):
+                    cands.add(m.group(0))
+                cands |= pattern_cands(variant.replace('"', ' ').replace('=', ' '))
+            cases_ak.append('(%s, %s, %s)' % (
+                coq_tables(key_table(whole), [], [], ip6_table(cands)), clist(read, zs),
+                clist(list(zip(queries, got)), lambda e: '(%d, %s, %s, %s, %s, %s)' % (
+                    e[0][0], zs(e[0][1]), zs(e[0][2]), copt(e[0][3], lambda p: clist(p, zs)), cbool(e[0][4]), coq_vres(e[1])))))
+            metas_ak.append((texts, queries))
+            for p in os.listdir(tmp):
+                os.remove(os.path.join(tmp, p))
+    finally:
+        shutil.rmtree(tmp, ignore_errors=True)
+    for k, v in st.items():
+        ctx.cov['oracle']['supply_' + k] = v
+    bad = ctx.coq_cases('known_hosts_files', IMPORTS, 'chk_kh_files', cases_kh, shard=60,
+                        ty='tables * list text * list (text * text * Z * option (list Z * list Z * list Z))')
+    if bad:
+        ctx.broke('correspondence:known_hosts_files', f'{len(bad)} of {len(cases_kh)} file lists differ; first: {metas_kh[bad[0]]!r}')
+    bad = ctx.coq_cases('authorized_keys_files', IMPORTS, 'chk_ak_files', cases_ak, shard=60,
+                        ty='tables * list text * list (Z * text * text * option (list text) * bool * option (option (list (text * obs))))')
+    if bad:
+        ctx.broke('correspondence:authorized_keys_files', f'{len(bad)} of {len(cases_ak)} file lists differ; first: {metas_ak[bad[0]]!r}')
+    need = {'multi': 20, 'no_final_newline_inside_list': 5, 'crlf': 3, 'empty_file': 3, 'cut_line': 3, 'selected': 10, 'ak_accepted': 5}
+    low = {k: st[k] for k, v in need.items() if st[k] < v}
+    if low:
+        ctx.broke('vacuity:supply_forms', f'classes hit too rarely: {low} (need {need})')
+
+
+def impl_ak_files(paths, queries):
+    """read_authorized_keys(list of paths) then validate, same observation as impl_ak."""
+    import asyncssh
+    try:
+        ak = asyncssh.read_authorized_keys(list(paths)) if len(paths) != 1 else asyncssh.read_authorized_keys(paths[0])
+    except Exception as e:
+        return [None] * len(queries), type(e).__name__
+    out, exc = [], None
+    for key, host, addr, princs, ca in queries:
+        try:
+            r = ak.validate(key_obj(key), host, addr, princs, ca)
+            out.append(('none',) if r is None else ('opts', canon_opts(r)))
+        except Exception as e:
+            out.append(None)
+            exc = type(e).__name__
+    return out, exc
+
 # ================================================================================================
 
 def run(ctx):
@@ -1328,6 +1524,7 @@ def run(ctx):
     stage_options_tokenizer(ctx)
     stage_known_hosts(ctx)
     stage_authorized_keys(ctx)
+    stage_supply_forms(ctx)
     # premise importer_total of the skipped-line theorems: the importer fails with KeyImportError only
     ctx.cov['oracle']['importer_non_KeyImportError_outcomes'] = len(_IMPORT_RAISED)
     if _IMPORT_RAISED:
@@ -1359,6 +1556,27 @@ def replay(rp):
         exp = ref.plist(rp['patterns'], [n for n in (rp['host'], rp['addr']) if n], ref.parse_ip(rp['addr']), True)
         print('HostPatternList ->', got, 'rules ->', exp)
         return 1 if got != exp else 0
+    if rp.get('file') in ('known_hosts_files', 'authorized_keys_files'):
+        tmp = tempfile.mkdtemp(prefix='c17r-', dir='/var/tmp')
+        try:
+            paths = write_files(tmp, 'f', rp['files'])
+            q = tuple(rp['query'])
+            if rp['file'] == 'known_hosts_files':
+                forms = kh_supply_forms(paths, rp['files'], q)
+                got = forms['list_of_paths']
+                bad = sorted(k for k, v in forms.items() if v != got)
+                print('list of paths ->', got, '; disagreeing forms ->', {k: forms[k] for k in bad})
+                if not bad and rp.get('lines_per_file') is not None:
+                    (et, ec, er), _ = ref.kh_lookup([ln for f in rp['lines_per_file'] for ln in f], *q)
+                    print('rules ->', (sorted(et), sorted(ec), sorted(er)))
+                    return 0 if got[0] != 'exc' and (set(got[0]), set(got[1]), set(got[2])) == (et, ec, er) else 1
+                return 1 if bad else 0
+            g, _ = impl_ak_files(paths, [q])
+            j, _ = impl_ak('\n'.join(rp['files']), [q])
+            print('read_authorized_keys(list) ->', g[0], '; newline-joined ->', j[0])
+            return 1 if g != j else 0
+        finally:
+            shutil.rmtree(tmp, ignore_errors=True)
     if rp.get('file') == 'known_hosts' and kind == 'damaged_key':
         lines = rp['lines']
         bad = {'text': rp['bad_line'], 'skip': True}
